@@ -129,6 +129,8 @@ def _replay_states(states):
 def rand_tree(rng, depth, mode='AUTO'):
     P = {'k': 'probe', 'a': '', 'c': []}
     if depth == 0 or rng.random() < 0.2:
+        if mode in ('AUTO', 'FILL') and rng.random() < 0.25:
+            return {'k': 'call', 'a': '', 'c': []}      # a plain callable: called in these modes
         return P
     kinds = ['auto', 'fill', 'match', 'group', 'pipe', 'pipe', 'coal', 'switch']
     if mode not in ('MATCH', 'GROUP'):
@@ -144,13 +146,17 @@ def rand_tree(rng, depth, mode='AUTO'):
     if k in ('auto', 'fill', 'match', 'group'):
         return {'k': k, 'a': '', 'c': [sub({'auto': 'AUTO', 'fill': 'FILL', 'match': 'MATCH', 'group': 'GROUP'}[k])]}
     if k in ('tup', 'pipe', 'dict'):
-        return {'k': k, 'a': '', 'c': [sub() for _ in range(rng.randint(1, 3))]}
+        kids = [sub() for _ in range(rng.randint(1, 3))]
+        if k != 'dict' and mode == 'AUTO' and rng.random() < 0.2:
+            # a wildcard step whose argument spec fails for every element, somewhere in the chain
+            kids.insert(rng.randint(0, len(kids) - 1), {'k': 'starq', 'a': '', 'c': []})
+        return {'k': k, 'a': '', 'c': kids}
     if k == 'coal':
         return {'k': k, 'a': '', 'c': [sub()]}
     if k == 'switch':
         return {'k': k, 'a': '', 'c': [sub(), sub()]}
     key = sub()
-    while has_dict(key) or has_kind(key, 'group'):
+    while has_dict(key) or has_kind(key, 'group') or has_kind(key, 'starq'):      # (key result hashable: a wildcard step answers a new list)
         key = sub()
     return {'k': 'mdict', 'a': '', 'c': [key, sub()]}
 
@@ -169,7 +175,7 @@ def record(check, n, seed):
     for _ in range(n):
         tree = rand_tree(rng, rng.randint(3, 5))
         obs = frames.execute(tree, [])
-        rows.append(dict(tree=tree, out=obs['out'], log=[{'p': e['p'], 'v': e['v']} for e in obs['log']],
+        rows.append(dict(tree=tree, out=obs['out'], log=[{'p': e['p'], 'v': 'CALLED' if e.get('what') == 'call' else e['v']} for e in obs['log']],
                          enters=[{'f': e['f'], 'par': e['par'], 'path': e['path'], 'mode': e['mode'], 'minmode': e['minmode']}
                                  for e in obs['events'] if e['a'] == 'enter'],
                          text=repr(obs['spec'])))
